@@ -12,10 +12,18 @@ _PUSH_FUNCS = [
     "push::push_vm::stack::{Stack::*, HasStack::{not_full,with_push,with_replace}, PushOnto::{push_onto,replace_on}, StackPush, StackDiscard}",
     "push::error::{Error::{fatal,recoverable,is_fatal,state,error,map_inner_err}, MapInstructionError, IntoState}",
 ]
-_PUSH_BOUNDS = ("STEP: every int / float / bool instruction, one harness each, from a pre-state whose three stacks have symbolic depth 0..=3 (0..=4 for Clamp), "
-                "symbolic full-width contents (all i64 incl. extremes, all f64 bit patterns incl. NaN, infinities, signed zeros) and a symbolic maximum >= depth "
-                "(so empty / one short / exactly enough / one below full / full are all inside), output buffer empty or 2 symbolic bytes")
-_PUSH_OUTSIDE = ("whole-program runs (compositional: STEP + DISPATCH + BLOCK + LOOP, composed on paper); stacks deeper than 3 before the step "
+_PUSH_BOUNDS = ("STEP lemma: every int (34) / float (18) / bool (13) instruction incl. literals, one harness per (instruction, operand-stack depth): quick = 'one short' and "
+                "'exactly enough' operands (thorough: every depth 0..=3, 0..=4 for Clamp, and a destination stack of depth 0); contents symbolic and full width (all i64 incl. "
+                "extremes, all f64 bit patterns incl. NaN, infinities, signed zeros), every per-stack maximum a symbolic usize >= depth (so one-below-full and full, incl. "
+                "maximum 0, are inside), 2 symbolic output bytes.  Arithmetic kernels in the quick tier: Multiply/Square full width; ProtectedDivide/Mod with operands in "
+                "-128..=127 / -16..=16 plus i64::MIN, MIN+1, MAX; Power with (any base, exponent <= 2 incl. negative) and (base -3..=3, exponent 0..=70); float Multiply/ProtectedDivide "
+                "with both operands from a 9-entry table of special values (thorough: full width, cap 25 min).  Print/PrintLn of i64/f64/bool with the operand from a concrete table "
+                "(0, -1, 42, MIN, MAX; 1.5, inf, NaN, -0.0; true, false), PrintString/PrintSpace/PrintNewline/PrintPeriod.  Exec instructions (generic Pop/Push/Dup/IsEmpty/StackDepth, Noop, "
+                "DupBlock, When, Unless, IfElse) against their documented action tables on exec stacks of 0..=2 distinct sentinel programs (thorough: Swap, Flush, deeper stacks, "
+                "one-element blocks) with symbolic conditions and maxima.  Thorough only: DISPATCH through PushInstruction / PushProgram on a builder-made PushState and input variables")
+_PUSH_OUTSIDE = ("whole-program runs: the claim is the single-step lemma from an arbitrary bounded state; that a run is a sequence of such steps (interpreter loop pops the exec stack "
+                 "front to back, recovers recoverable errors, counts steps, blocks unfold in order) is NOT decided in the quick tier -- run_to_completion on a symbolic program did not fit "
+                 "the solver budget (DESIGN 3.2) -- and is composed on paper; stacks deeper than 3 before the step "
                  "(instructions read at most the top 3 elements plus size/is_full); Power outside the stated operand domain; formatting of arbitrary "
                  "symbolic numbers (print operands come from a table); pre-states that violate size <= max (not reachable: the invariant is the C03 lemma)")
 for _pid, _a, _what in (("C01", "a01", "outcome, stacks and output equal the reference step"),
@@ -31,8 +39,10 @@ for _pid, _a, _what in (("C01", "a01", "outcome, stacks and output equal the ref
         "bounds": {"quick": _PUSH_BOUNDS + "; assertion set: " + _what, "thorough": _PUSH_BOUNDS + "; assertion set: " + _what},
         "outside": _PUSH_OUTSIDE,
         "assumptions": ["pre-states satisfy size <= max on every stack (inductive invariant, itself asserted as post-condition under C03)",
-                        "reference step REF (harness/src/push_ref) is validated natively against the repository's own test vectors"],
-        "unclaimed": True,
+                        "STEP runs on the harness state type VState / EState (real Stacks; the instruction impls are generic over the state type)",
+                        "exec harnesses stub <PushProgram as Clone>::clone with a model that rebuilds the sentinel of the same id (derived clone of a heap-read program: > 11 GB)",
+                        "in the C02 / C03 builds the C01 conditions are assumed (states consistent with C01); vacuity is excluded by a reachability witness per harness",
+                        "when operands are missing AND the destination stack is full, either documented error (recoverable underflow / fatal overflow) is accepted"],
         # exec harnesses: a PushProgram read back from the heap loses its concrete discriminant in CBMC, so its
         # drop glue / clone explore every variant recursively.  The recursion is cut at the nesting depth the
         # harness builds (flat sentinels: 1, one-element blocks: 2); unwinding assertions check the cut.
@@ -47,7 +57,7 @@ for _pid, _a, _what in (("C01", "a01", "outcome, stacks and output equal the ref
         ],
         "caps_by_harness": [("power", (600, 12)), ("^c01_t_exec_", (1500, 14)), ("^c01_t_dispatch_", (1500, 14))],
         # exec harnesses with >= 2 programs need 4-8 GB each: at most 4 side by side
-        "weight_by_harness": [("^c01_t_exec_", 4), ("^c01_t_dispatch_", 2), ("^c01_exec_(if_else_e2|push_empty)", 2)],
+        "weight_by_harness": [("^c01_t_exec_", 4), ("^c01_t_dispatch_", 2), ("_swap_d[23]$", 2), ("^c01_exec_(if_else_e2|push_empty)", 2)],
     }
 
 PROPS["C04"] = {
